@@ -111,10 +111,10 @@ Definition head_sat G (H T: interp) (s: subst) (h: head) : Prop :=
   | HDisj es => exists e th, In e es /\ agree_on G s th /\ lits_sat G H T th (snd e) /\ lit_sat G H T th (fst e)
   | HAgg lg es rg =>
       choice_elems_ok G H T s es /\
-      agg_holds s lg FCount rg (choice_tuples G H T s es) /\ agg_holds s lg FCount rg (choice_tuples G T T s es)
+      agg_holds s lg FCount rg (choice_tuples G T T s es)
   | HHeadAgg lg f es rg =>
       choice_elems_ok G H T s (map snd es) /\
-      agg_holds s lg f rg (headagg_tuples G H T s es) /\ agg_holds s lg f rg (headagg_tuples G T T s es)
+      agg_holds s lg f rg (headagg_tuples G T T s es)
   | HTheory _ => False
   end.
 
